@@ -19,6 +19,7 @@ SKIP = {"pytest.log", "pytest_full.log", "tests_full.txt", "tests_with_change.tx
 
 def main():
     results = {}
+    first = {}      # (dir, check) -> caught in the first evaluation of that pair (before any strengthening)
     for path in sys.argv[1:]:
         for line in open(path):
             line = line.strip()
@@ -26,6 +27,8 @@ def main():
                 continue
             d = json.loads(line)
             key = d["dir"]
+            for c, v in d.get("checks", {}).items():
+                first.setdefault((key, c), v["rc"] == 1 and v["violations"] > 0)
             prev = results.get(key)
             if prev:
                 # keep suite/demo facts from whichever run established them; merge check outcomes (later wins)
@@ -44,7 +47,7 @@ def main():
         dst = os.path.join(SEEDED, sid)
         confirmed = bool(d.get("applies")) and d.get("suite_passes") is True and d.get("demo_fails_with_change") is True and d.get("demo_passes_without") is True
         if not confirmed:
-            rows.append((sid, prop, "(not kept: %s)" % {k2: d.get(k2) for k2 in ("applies", "suite_passes", "demo_fails_with_change", "demo_passes_without")}, {}, ""))
+            rows.append((sid, prop, "(not kept: %s)" % {k2: d.get(k2) for k2 in ("applies", "suite_passes", "demo_fails_with_change", "demo_passes_without")}, {}, "", None))
             shutil.rmtree(dst, ignore_errors=True)
             continue
         os.makedirs(dst, exist_ok=True)
@@ -58,8 +61,10 @@ def main():
         if os.path.exists(mt):
             meta_txt = open(mt, errors="replace").read()
         caught = {c: (v["rc"] == 1 and v["violations"] > 0) for c, v in d.get("checks", {}).items()}
+        own_first = first.get((src, prop))
         meta = {
             "id": sid,
+            "caught_by_its_own_property_check_in_the_first_round": own_first,
             "breaks_property": prop,
             "origin": "independent sub-agent given only the property text and a scratch worktree",
             "what_and_what_it_needs_to_manifest": meta_txt.strip()[:2500],
@@ -75,22 +80,23 @@ def main():
         }
         with open(os.path.join(dst, "meta.json"), "w") as f:
             json.dump(meta, f, indent=1)
-        first = ""
+        first_v = ""
         for c, v in d.get("checks", {}).items():
             if caught[c]:
-                first = v.get("first", "")[:160].replace("|", "/").replace("\n", " ")
+                first_v = v.get("first", "")[:160].replace("|", "/").replace("\n", " ")
                 break
         what = meta_txt.strip().splitlines()[0][:200].replace("|", "/") if meta_txt.strip() else ""
-        rows.append((sid, prop, what, caught, first))
+        rows.append((sid, prop, what, caught, first_v, own_first))
     with open(os.path.join(SEEDED, "README.md"), "w") as f:
         f.write("# Seeded changes\n\nEach directory holds a change to google/emboss written by an independent sub-agent that saw only the text of one "
                 "property (never /verif), its demonstration, and `meta.json` with what was confirmed here (patch applies, the repository's suite "
                 "still passes, the demonstration fails with the change and passes without it) and which of our checks catch it "
                 "(`tools/seedcheck.py`, quick tier).  None of these changes is ever committed to /repo.\n\n")
-        f.write("| id | change (first line of the author's note) | caught by | missed by | first violation |\n|---|---|---|---|---|\n")
-        for sid, prop, what, caught, first in rows:
-            f.write("| %s | %s | %s | %s | %s |\n" % (sid, what, ", ".join(c for c, x in caught.items() if x) or "-",
-                                                  ", ".join(c for c, x in caught.items() if not x) or "-", first))
+        f.write("| id | change (first line of the author's note) | own check, first round | caught by (now) | missed by (now) | first violation |\n|---|---|---|---|---|---|\n")
+        for sid, prop, what, caught, first_v, own_first in rows:
+            f.write("| %s | %s | %s | %s | %s | %s |\n" % (sid, what, {True: "caught", False: "missed", None: "-"}[own_first],
+                                                       ", ".join(c for c, x in caught.items() if x) or "-",
+                                                       ", ".join(c for c, x in caught.items() if not x) or "-", first_v))
         n = sum(1 for r in rows if r[3])
         c = sum(1 for r in rows if any(r[3].values()))
         f.write("\n%d kept changes; %d caught by at least one check at the quick tier.\n" % (n, c))
